@@ -70,6 +70,35 @@ namespace nmtools::array
             auto numel   = index::product(sizes_);
             // since size may be packed, the proper way to read dim is using len instead of sizes..+1
             auto new_dim = len(sizes_);
+            // validate the request before touching any member,
+            // a refused resize must leave the array as it was
+            [[maybe_unused]] auto fits = [](const auto& container, auto n){
+                using container_t = meta::remove_cvref_t<decltype(container)>;
+                if constexpr (meta::is_resizable_v<container_t>) {
+                    [[maybe_unused]] constexpr auto bound = meta::bounded_size_v<container_t>;
+                    if constexpr (meta::is_num_v<decltype(bound)>) {
+                        return (size_t)n <= (size_t)bound;
+                    } else {
+                        return true;
+                    }
+                } else {
+                    return (size_t)len(container) == (size_t)n;
+                }
+            };
+            if (!fits(shape_,new_dim) || !fits(data_,numel)) {
+                return false;
+            }
+            if constexpr (meta::is_clipped_index_array_v<shape_type>) {
+                constexpr auto max_sizes = meta::to_value_v<shape_type>;
+                if ((size_t)len(sizes_) != (size_t)len(max_sizes)) {
+                    return false;
+                }
+                for (size_t i=0; i<len(max_sizes); i++) {
+                    if ((size_t)at(sizes_,i) > (size_t)at(max_sizes,i)) {
+                        return false;
+                    }
+                }
+            }
             if constexpr (meta::is_resizable_v<shape_type>) {
                 shape_.resize(new_dim);
             }
